@@ -24,6 +24,11 @@ def run(ctx, L, tier):
     slice_components(ctx, L)
     P.bytes_default(ctx, L)
     mutator_escapes(ctx, L)
+    check_returns(ctx, L)
+    from . import c11
+    c11.ownership(ctx, L)       # extend()/copy_from must not alias: a later mutation of one message would show in the other
+    c11.ladder(ctx, L)
+    c11.extend_copies(ctx, L)
     return sorted(set(o.rule for o in L.obligations))
 
 
@@ -171,14 +176,22 @@ def limit_guards(ctx, L):
                 if max_len and cur > max_len:
                     continue
                 vals = list(range(cur))
-                for added in ((1,) if kind == 'one' else (0, 1, 2, 3)):
+                for added in ((1,) if kind == 'one' else (0, 1, 2, 3, 4, 5)):
                     for start, stop in ([(None, None)] if kind != 'slice' else
                                         [(None, None), (0, 1), (1, 2), (0, 10), (2, 10), (5, 9), (1, None), (None, 2), (-1, None), (-2, -1)]):
+                      for idx in ((0, cur, -1, 7) if q.endswith('.insert') else (None,)):
                         env = {'self._max_len': max_len, 'len(self)': cur, 'self._values': vals, 'self': vals,
                                'values': list(range(added)), 'elem_seq': list(range(added)), 'value': 0,
                                'start': start, 'stop': stop, '__defs__': defs}
+                        if idx is not None:
+                            env[f.params[1]] = idx
                         try:
                             got = any(all(bool(miniev.ev(t, env)) == pol for t, pol in conds) for _, conds in raises)
+                        except miniev.Crash as e:
+                            bad.append('max_len=%d len=%d added=%d%s: the guard itself fails (%s) - not a ProphyError' % (
+                                max_len, cur, added, (' slice[%s:%s]' % (start, stop)) if kind == 'slice' else '', e))
+                            n += 1
+                            continue
                         except miniev.Unknown as e:
                             raise AnalysisError('%s: limit guard term not recognised: %s' % (q, e))
                         removed = len(vals[start:stop]) if kind == 'slice' else 0
@@ -352,3 +365,35 @@ def mutator_escapes(ctx, L):
                     '%s can escape a public mutator (%s); rejected operations must raise ProphyError (or list-style IndexError / '
                     'ValueError); path: %s' % (cls, e.text, ' -> '.join(e.via[:4])), e.text)
     L.floor('F7.mutator-escape', len(seen), 10)
+
+
+def check_returns(ctx, L):
+    """Every value a `_check` function returns has passed the test that defines the field's domain: each `return` is
+    dominated by the rejecting guards (no shortcut path that accepts a value unexamined)."""
+    sc = ctx.py.mod('prophy.scalar')
+    gen = ctx.py.mod('prophy.generators')
+    comp = ctx.py.mod('prophy.composite')
+    specs = [
+        (sc.func('int_decorator.decorator.check'), [['not isinstance(value, (int, long))'], ['not min_ <= value <= max_']]),
+        (sc.func('float_decorator.decorator.check'), [['not isinstance(value, (float, int, long))']]),
+        (comp.func('bytes_._bytes._check'), [['not isinstance(value, bytes)'], ['size and len(value) > size']]),
+    ]
+    for f, groups in specs:
+        for r in [x for x in f.walk() if isinstance(x, ast.Return)]:
+            conds = [(ws(unparse(t)), pol, how) for t, pol, how in path_conditions(f.module, f, r)]
+            for alts in groups:
+                ok = any((a, False) == (t, pol) and how.startswith('early-exit:raise') for a in alts for t, pol, how in conds)
+                L.check(ok, 'C10f.check-dominates-return', '%s|%s|%s' % (f.fq, norm_key(f, r), alts[0]), f.site(r),
+                        'a value is returned (accepted) by %s on a path that has not passed the rejecting test `%s`' % (f.qualname, alts[0]),
+                        ws(unparse(r)))
+    e = gen.func('enum_generator.add_attributes.check')
+    rets = [x for x in e.walk() if isinstance(x, ast.Return)]
+    for r in rets:
+        conds = [(ws(unparse(t)), pol, how) for t, pol, how in path_conditions(e.module, e, r)]
+        member = any((t, pol) in (('value not in int_to_name', False), ('value is None', False)) and how.startswith('early-exit:raise')
+                     for t, pol, how in conds)
+        L.check(member, 'C10f.check-dominates-return', '%s|%s' % (e.fq, norm_key(e, r)), e.site(r),
+                'the enum check accepts a value on a path that has not tested it against the enumerator tables (an enumerator of '
+                'another enum type, or any int subclass instance, would be stored although this enum has no such member)',
+                '%s under %s' % (ws(unparse(r)), [c[:2] for c in conds]))
+    L.floor('C10f.check-dominates-return', L.rule_count('C10f.check-dominates-return'), 6)
